@@ -119,6 +119,25 @@ def gen_cases(rng, tier):
         u2, t2 = (u, t) if rng.random() < 0.85 else rng.sample(curs, 2)
         cases.append({'k': 'r', 'a': [u, m1, t, _spell(rng, rate * m1)],
                       'b': [u2, m2, t2, _spell(rng, r2 * m2)]})
+    # a converter registered for a type WITH reference unit that disagrees with the scales:
+    # equality (and the hash) follow the scales, the converter is not consulted
+    # (seeded C19-h: converters first)
+    for _ in range(20 if tier == 'quick' else 200):
+        world = W.random_world(rng, n_classes=1, quantized_p=0.0)
+        views = W.Views(world)
+        syms = sorted(views.units)
+        if len(syms) < 2:
+            continue
+        u, v = rng.sample(syms, 2)
+        k = rng.choice([F(1024), F(3), F(1, 7)])
+        tables = [{'cls': world['classes'][0]['name'], 'form': 'map',
+                   'rows': [[u, v, ['frac', frs(k)], ['frac', '0/1']]]}]
+        a = rng.choice([F(1), F(5, 2), F(-3)])
+        for b in (a * k, a * views.units[u]['scale'] / views.units[v]['scale']):
+            cases.append({'k': 'q', 'world': world, 'tables': tables,
+                          'x': ['q', _spell(rng, a), u], 'y': ['q', _spell(rng, b), v]})
+            cases.append({'k': 'q', 'world': world, 'tables': tables,
+                          'x': ['q', _spell(rng, b), v], 'y': ['q', _spell(rng, a), u]})
     # a rate and the SAME rate quoted the other way round (exact reciprocals) are different
     # rates: not equal (and if they were, they would have to hash equal: seeded C19-g)
     for _ in range(24 if tier == 'quick' else 240):
@@ -145,6 +164,8 @@ def impl_run(case):
                 'fa': [frs(F(a._unit_multiple)), frs(F(a._term_amount))],
                 'fb': [frs(F(b._unit_multiple)), frs(F(b._term_amount))]}
     units, classes = W.instantiate(case['world'])
+    if case.get('tables'):
+        Q._tables(case, units, classes)
     if k == 'u':
         a, b = units[case['u']], units[case['v']]
         return {'eq': W.guarded(lambda: a == b), 'heq': hash(a) == hash(b), 'n': len({a, b})}
@@ -174,7 +195,7 @@ def coq_case(case, r):
     eq = W.coq_obs(r['eq'], views)
     if k == 'u':
         return f"(HU {views.coq(case['u'])} {views.coq(case['v'])} {eq} {cbool(r['heq'])})"
-    cv = Q.coq_convs({'world': case['world']}, views)
+    cv = Q.coq_convs({'world': case['world'], 'tables': case.get('tables', [])}, views)
     p = f"(mkQty {cq(F(r['ox']['amt']))} {views.coq(case['x'][2])})"
     q = f"(mkQty {cq(F(r['oy']['amt']))} {views.coq(case['y'][2])})"
     return f"(HQ {cv} {p} {q} {eq} {cbool(r['heq'])})"
